@@ -172,11 +172,788 @@ theorem c05_other_instance_progresses (s : Server) (i j : Nat) (m k : Nat) (hij 
   · simp [s2, t2]
   · simp [s2, s1, hji, hblocked]
 
+/-! ### refinement: the instance is a FIFO work queue with one worker
+The abstract specification a protocol author has in mind: messages are enqueued, one worker takes the
+oldest one, works on it, finishes it, takes the next; shutting the queue stops the worker from
+taking more.  Every step of the implementation model (mutex regions, wake-up token, sleeping and
+waking reader) is one step of this specification or no step at all. -/
+structure Spec where
+  pending : List Nat := []
+  working : Option Nat := none
+  done : List Nat := []
+  isOpen : Bool := true
+  deriving DecidableEq, Repr
+
+inductive SpecAct where | enq (m : Nat) | start | finish | shut
+  deriving Repr
+
+def specStep (q : Spec) : SpecAct → Option Spec
+  | .enq m => if q.isOpen then some { q with pending := q.pending ++ [m] } else none
+  | .start =>
+      match q.working, q.pending, q.isOpen with
+      | none, m :: rest, true => some { q with pending := rest, working := some m }
+      | _, _, _ => none
+  | .finish =>
+      match q.working with
+      | some m => some { q with working := none, done := q.done ++ [m] }
+      | none => none
+  | .shut => some { q with isOpen := false }
+
+/-- the abstraction function: the wake-up token and where exactly the idle reader is are invisible -/
+def abs (s : St) : Spec :=
+  { pending := s.queue, working := (match s.pc with | .handling m => some m | _ => none),
+    done := s.finished, isOpen := !s.closing }
+
+/-- **refinement**: every implementation step is a specification step or a stutter. -/
+theorem c05_refines_queue (s s' : St) (a : Act) (hs : step s a = some s') :
+    abs s' = abs s ∨ ∃ b, specStep (abs s) b = some (abs s') := by
+  cases a with
+  | accept m =>
+    simp only [step] at hs
+    split at hs <;> simp at hs <;> subst hs
+    · left; rfl
+    · rename_i hc
+      right; refine ⟨.enq m, ?_⟩
+      simp [specStep, abs, hc]
+  | close =>
+    simp [step] at hs; subst hs
+    right; exact ⟨.shut, by simp [specStep, abs]⟩
+  | reader =>
+    simp only [step] at hs
+    split at hs
+    · rename_i hpc
+      split at hs
+      · simp at hs; subst hs; left; simp [abs, hpc]
+      · rename_i hc
+        split at hs
+        · rename_i m q hq
+          simp at hs; subst hs
+          right; refine ⟨.start, ?_⟩
+          simp [specStep, abs, hpc, hq, hc]
+        · simp at hs; subst hs; left; simp [abs, hpc]
+    · rename_i m hpc
+      simp at hs; subst hs
+      right; refine ⟨.finish, ?_⟩
+      simp [specStep, abs, hpc]
+    · rename_i hpc
+      split at hs <;> simp at hs
+      subst hs; left; simp [abs, hpc]
+    · simp at hs
+
+/-- the initial states correspond -/
+theorem c05_refines_queue_init : abs {} = {} := rfl
+
+/-- what the specification guarantees by construction (stated so that the refinement has a content):
+the messages enqueued while the queue was open are always `done ++ working ++ pending` — work is
+taken in enqueueing order, one piece at a time, nothing is skipped -/
+theorem c05_spec_order (q q' : Spec) (b : SpecAct) (enq : List Nat) (hb : specStep q b = some q')
+    (h : enq = q.done ++ q.working.toList ++ q.pending) :
+    (match b with | .enq m => enq ++ [m] | _ => enq) = q'.done ++ q'.working.toList ++ q'.pending := by
+  cases b with
+  | enq m =>
+    simp only [specStep] at hb
+    split at hb <;> simp at hb
+    subst hb; simp [h, List.append_assoc]
+  | start =>
+    simp only [specStep] at hb
+    split at hb <;> simp at hb
+    rename_i m rest hw hp _
+    subst hb; simp [h, hw, hp]
+  | finish =>
+    simp only [specStep] at hb
+    split at hb <;> simp at hb
+    rename_i m hw
+    subst hb; simp [h, hw]
+  | shut => simp [specStep] at hb; subst hb; exact h
+
+/-! ### the server: any number of instances, arbitrary schedules
+`c05_instances_independent` is about one step and `c05_other_instance_progresses` about one particular
+state; the statements below are for whole schedules over a server with any number of instances. -/
+
+/-- a server schedule: disabled actions are skipped -/
+def srun (s : Server) : List SAct → Server
+  | [] => s
+  | a :: as => match sstep s a with
+      | some s' => srun s' as
+      | none => srun s as
+
+/-- the actions of a server schedule that concern instance `j` -/
+def proj (j : Nat) : List SAct → List Act
+  | [] => []
+  | .at i a :: as => if i = j then a :: proj j as else proj j as
+
+/-- `run` never fails (a disabled action is skipped) -/
+def runT (s : St) : List Act → St
+  | [] => s
+  | a :: as => match step s a with
+      | some s' => runT s' as
+      | none => runT s as
+
+theorem run_eq_runT (as : List Act) (s : St) : run s as = some (runT s as) := by
+  induction as generalizing s with
+  | nil => rfl
+  | cons a as ih =>
+    simp only [run, runT]
+    cases step s a with
+    | none => exact ih s
+    | some s' => exact ih s'
+
+/-- **instances are independent, for whole schedules**: what instance `j` does under a server
+schedule is exactly what it does on its own under the sub-schedule of its own actions — whatever
+the other instances do in between, including one whose handler never returns (its reader simply
+has no further action in the schedule). -/
+theorem c05_server_projection (as : List SAct) (s : Server) (j : Nat) :
+    srun s as j = runT (s j) (proj j as) := by
+  induction as generalizing s with
+  | nil => rfl
+  | cons a as ih =>
+    obtain ⟨i, a⟩ := a
+    simp only [srun, proj]
+    by_cases hij : i = j
+    · subst hij
+      simp only [if_true, runT]
+      cases hs : step (s i) a with
+      | none => simp [sstep, hs]; exact ih s
+      | some t =>
+        have : sstep s (.at i a) = some (fun x => if x = i then t else s x) := by simp [sstep, hs]
+        rw [this]; simp only
+        rw [ih]; simp
+    · simp only [hij, if_false]
+      cases hs : sstep s (.at i a) with
+      | none => exact ih s
+      | some s' =>
+        simp only
+        rw [ih]
+        have := c05_instances_independent s s' i j a (fun e => hij e.symm) hs
+        rw [this]
+
+/-- **order, one at a time, nothing lost — for every instance of a server, under every server
+schedule**: the handlers instance `j` has started are a prefix of what was accepted for `j`, at most
+one of them is running, and when `j`'s reader can do nothing more (and `j` was not closed) every
+message accepted for `j` has been handled to the end — no matter what state any other instance is
+in. -/
+theorem c05_server_each_instance (as : List SAct) (j : Nat) :
+    let t := srun (fun _ => {}) as j
+    t.started <+: t.accepted ∧
+    (∃ running, t.started = t.finished ++ running ∧ running.length ≤ 1) ∧
+    (step t .reader = none → t.closing = false → t.finished = t.accepted ∧ t.queue = []) := by
+  have h := c05_server_projection as (fun _ => {}) j
+  have hr := run_eq_runT (proj j as) {}
+  intro t
+  have ht : t = runT {} (proj j as) := h
+  rw [← ht] at hr
+  exact ⟨c05_fifo _ t hr, c05_serial _ t hr, fun hb hc => c05_quiescent_all_handled _ t hr hb hc⟩
+
+/-- non-vacuity: instance 0 sits in the handler of message 1 for the rest of the schedule; instance 1,
+fed in between, handles 7 and 8 to the end -/
+example : (srun (fun _ => {}) [.at 0 (.accept 1), .at 0 .reader, .at 0 (.accept 2), .at 1 (.accept 7), .at 1 .reader,
+      .at 0 (.accept 3), .at 1 (.accept 8), .at 1 .reader, .at 1 .reader, .at 1 .reader] 1).finished = [7, 8] := by decide
+example : (srun (fun _ => {}) [.at 0 (.accept 1), .at 0 .reader, .at 0 (.accept 2), .at 1 (.accept 7), .at 1 .reader,
+      .at 0 (.accept 3), .at 1 (.accept 8), .at 1 .reader, .at 1 .reader, .at 1 .reader] 0).pc = .handling 1 := by decide
+
 /-! ### non-vacuity: a concrete schedule with two feeders and a slow handler -/
 example : ∃ s, run {} [.accept 1, .reader, .accept 2, .accept 3, .reader, .reader, .reader, .reader] = some s ∧
     s.started = [1, 2, 3] ∧ s.finished = [1, 2] ∧ s.accepted = [1, 2, 3] := by
   refine ⟨_, rfl, ?_⟩; decide
 example : step { pc := .handling 7 } (.accept 9) ≠ none := c05_handover_nonblocking _ _
+
+/-! ### from the connection to the queue (`Model/C05Conn.lean`)
+The receive loop of every connection, the two dispatchers, the overlay's hand-over under `transmitMux`,
+all instances of the server and the service processors in one transition system. -/
+
+/-- a stopped reader belongs to a closed instance (the reader only returns after `closeDispatch`) -/
+theorem stop_step (s s' : St) (a : Act) (h : s.pc = .stopped → s.closing = true) (hs : step s a = some s') :
+    s'.pc = .stopped → s'.closing = true := by
+  intro hp1
+  cases a with
+  | accept m =>
+    simp only [step] at hs
+    split at hs <;> simp at hs <;> subst hs
+    · exact h hp1
+    · simp at hp1; simpa using h hp1
+  | close => simp [step] at hs; subst hs; rfl
+  | reader =>
+    simp only [step] at hs
+    split at hs
+    · split at hs
+      · rename_i hcl; simp at hs; subst hs; exact hcl
+      · split at hs <;> simp at hs <;> subst hs <;> simp at hp1
+    · simp at hs; subst hs; simp at hp1
+    · split at hs <;> simp at hs; subst hs; simp at hp1
+    · simp at hs
+
+/-- `c05_quiescent_all_handled` from the invariants alone -/
+theorem quiescent_of_inv (s : St) (h : Inv s) (hstop : s.pc = .stopped → s.closing = true)
+    (hblocked : step s .reader = none) (hc : s.closing = false) :
+    s.finished = s.accepted ∧ s.queue = [] := by
+  cases hpc : s.pc with
+  | top =>
+    simp only [step, hpc, hc] at hblocked
+    cases hq : s.queue <;> simp [hq] at hblocked
+  | handling m => simp [step, hpc] at hblocked
+  | waiting =>
+    simp only [step, hpc] at hblocked
+    have ht : s.token = false := by
+      cases ht : s.token <;> simp [ht] at hblocked ⊢
+    have hq : s.queue = [] := by
+      cases hq : s.queue with
+      | nil => rfl
+      | cons m q =>
+        have := h.wake hpc (by simp [hq])
+        simp [ht] at this
+    refine ⟨?_, hq⟩
+    have := h.order
+    simp [cur, hpc, hq] at this
+    exact this.symm
+  | stopped => have := hstop hpc; simp [hc] at this
+
+namespace Conn
+
+/-- the envelopes of connection `c` in a (connection, envelope) log -/
+def onConn (c : Nat) (l : List (Nat × Env)) : List Env := (l.filter (fun p => p.1 == c)).map (·.2)
+
+/-- the protocol messages among some envelopes, as (instance, message) -/
+def protos : List Env → List (Nat × Nat)
+  | [] => []
+  | .proto i m :: l => (i, m) :: protos l
+  | .svc _ _ :: l => protos l
+
+/-- the protocol message a connection's goroutine holds between `Receive` and the hand-over -/
+def inHand : LPc → List (Nat × Nat)
+  | .disp (.proto i m) => [(i, m)]
+  | .ctor i m => [(i, m)]
+  | _ => []
+
+/-- the hand-overs of messages that came over connection `c`, as (instance, message) -/
+def handsOn (c : Nat) (l : List Hand) : List (Nat × Nat) := (l.filter (fun h => h.c == c)).map fun h => (h.i, h.m)
+
+/-- the messages instance `i` took, in the order of the server's hand-overs -/
+def takenBy (i : Nat) (l : List Hand) : List Nat := (l.filter (fun h => h.i == i && h.ok)).map (·.m)
+
+theorem protos_append (a b : List Env) : protos (a ++ b) = protos a ++ protos b := by
+  induction a with
+  | nil => rfl
+  | cons e a ih => cases e <;> simp [protos, ih]
+
+theorem onConn_snoc (c c' : Nat) (e : Env) (l : List (Nat × Env)) :
+    onConn c (l ++ [(c', e)]) = onConn c l ++ (if c' = c then [e] else []) := by
+  by_cases h : c' = c <;> simp [onConn, List.filter_append, h]
+
+theorem handsOn_snoc (c : Nat) (x : Hand) (l : List Hand) :
+    handsOn c (l ++ [x]) = handsOn c l ++ (if x.c = c then [(x.i, x.m)] else []) := by
+  by_cases h : x.c = c <;> simp [handsOn, List.filter_append, h]
+
+theorem takenBy_snoc (i : Nat) (x : Hand) (l : List Hand) :
+    takenBy i (l ++ [x]) = takenBy i l ++ (if x.i = i ∧ x.ok = true then [x.m] else []) := by
+  by_cases h : x.i = i ∧ x.ok = true
+  · simp [takenBy, List.filter_append, h]
+  · have : (x.i == i && x.ok) = false := by
+      cases hb : (x.i == i && x.ok)
+      · rfl
+      · exfalso; apply h; simpa using hb
+    simp [takenBy, List.filter_append, h, this]
+
+theorem upd_same {α : Type} (f : Nat → α) (k : Nat) (v : α) : upd f k v k = v := by simp [upd]
+theorem upd_other {α : Type} (f : Nat → α) (k j : Nat) (v : α) (h : j ≠ k) : upd f k v j = f j := by simp [upd, h]
+
+structure Inv (s : St) : Prop where
+  /-- a connection is a FIFO: what was written = what `Receive` returned ++ what is still on the wire -/
+  fifo : ∀ c, onConn c s.sent = onConn c s.got ++ s.wire c
+  /-- every protocol message `Receive` returned was handed over, in that order, or is in the goroutine's hand -/
+  hand : ∀ c, protos (onConn c s.got) = handsOn c s.hand ++ inHand (s.loop c)
+  /-- an instance's acceptance order is the order of the server's hand-overs to it -/
+  acc : ∀ i, (s.inst i).accepted = takenBy i s.hand
+  inst : ∀ i, C05.Inv (s.inst i)
+  stop : ∀ i, (s.inst i).pc = .stopped → (s.inst i).closing = true
+
+theorem inv_init : Inv {} :=
+  ⟨fun _ => rfl, fun _ => rfl, fun _ => rfl, fun _ => C05.inv_init, fun _ h => by simp at h⟩
+
+/-- what `handOver` does, spelled out -/
+theorem handOver_eq (s : St) (c i m : Nat) :
+    ∃ t, C05.step (s.inst i) (.accept m) = some t ∧
+      handOver s c i m = { s with inst := upd s.inst i t, hand := s.hand ++ [⟨c, i, m, !(s.inst i).closing⟩] } ∧
+      t.accepted = (s.inst i).accepted ++ (if (s.inst i).closing = false then [m] else []) := by
+  unfold handOver
+  simp only [C05.step]
+  cases hcl : (s.inst i).closing <;> simp
+
+theorem inv_handOver (s : St) (c i m : Nat) (lp : LPc) (hI : Inv s) (hl : inHand (s.loop c) = [(i, m)])
+    (hlp : inHand lp = []) (mx : Bool) (lv : List Nat) :
+    Inv { handOver s c i m with mux := mx, live := lv, loop := upd s.loop c lp } := by
+  obtain ⟨t, hst, heq, hacc⟩ := handOver_eq s c i m
+  rw [heq]
+  obtain ⟨hf, hh, ha, hi, hs⟩ := hI
+  refine ⟨hf, fun c' => ?_, fun j => ?_, fun j => ?_, fun j => ?_⟩
+  · show protos (onConn c' s.got) = handsOn c' (s.hand ++ [_]) ++ inHand (upd s.loop c lp c')
+    rw [handsOn_snoc]
+    by_cases e : c' = c
+    · subst e; rw [upd_same, hlp, hh, hl]; simp
+    · have e' : ¬ c = c' := fun x => e x.symm
+      rw [upd_other _ _ _ _ e]; simp [e', hh]
+  · show (upd s.inst i t j).accepted = takenBy j (s.hand ++ [_])
+    rw [takenBy_snoc]
+    by_cases e : j = i
+    · subst e; rw [upd_same, hacc, ha]
+      cases (s.inst j).closing <;> simp
+    · have e' : ¬ i = j := fun x => e x.symm
+      rw [upd_other _ _ _ _ e]; simp [e', ha]
+  · show C05.Inv (upd s.inst i t j)
+    by_cases e : j = i
+    · subst e; rw [upd_same]; exact C05.inv_step _ _ _ (hi j) hst
+    · rw [upd_other _ _ _ _ e]; exact hi j
+  · show (upd s.inst i t j).pc = .stopped → (upd s.inst i t j).closing = true
+    by_cases e : j = i
+    · subst e; rw [upd_same]; exact C05.stop_step _ _ _ (hs j) hst
+    · rw [upd_other _ _ _ _ e]; exact hs j
+
+/-- a step of one instance that leaves its acceptance log alone -/
+theorem inv_inst_step (s : St) (i : Nat) (a : C05.Act) (t : C05.St) (hI : Inv s)
+    (hst : C05.step (s.inst i) a = some t) (hacc : t.accepted = (s.inst i).accepted) :
+    Inv { s with inst := upd s.inst i t } := by
+  obtain ⟨hf, hh, ha, hi, hs⟩ := hI
+  refine ⟨hf, hh, fun j => ?_, fun j => ?_, fun j => ?_⟩
+  · show (upd s.inst i t j).accepted = takenBy j s.hand
+    by_cases e : j = i
+    · subst e; rw [upd_same, hacc]; exact ha j
+    · rw [upd_other _ _ _ _ e]; exact ha j
+  · show C05.Inv (upd s.inst i t j)
+    by_cases e : j = i
+    · subst e; rw [upd_same]; exact C05.inv_step _ _ _ (hi j) hst
+    · rw [upd_other _ _ _ _ e]; exact hi j
+  · show (upd s.inst i t j).pc = .stopped → (upd s.inst i t j).closing = true
+    by_cases e : j = i
+    · subst e; rw [upd_same]; exact C05.stop_step _ _ _ (hs j) hst
+    · rw [upd_other _ _ _ _ e]; exact hs j
+
+theorem reader_accepted (s t : C05.St) (h : C05.step s .reader = some t) : t.accepted = s.accepted := by
+  simp only [C05.step] at h
+  split at h
+  · split at h
+    · simp at h; subst h; rfl
+    · split at h <;> simp at h <;> subst h <;> rfl
+  · simp at h; subst h; rfl
+  · split at h <;> simp at h; subst h; rfl
+  · simp at h
+
+theorem inv_step (s s' : St) (a : Act) (hI : Inv s) (hs : step s a = some s') : Inv s' := by
+  cases a with
+  | send c e =>
+    simp only [step] at hs; simp at hs; subst hs
+    obtain ⟨hf, hh, ha, hi, hst⟩ := hI
+    refine ⟨fun c' => ?_, hh, ha, hi, hst⟩
+    show onConn c' (s.sent ++ [(c, e)]) = onConn c' s.got ++ upd s.wire c (s.wire c ++ [e]) c'
+    rw [onConn_snoc]
+    by_cases h : c' = c
+    · subst h; rw [upd_same, hf]; simp
+    · have h' : ¬ c = c' := fun x => h x.symm
+      rw [upd_other _ _ _ _ h]; simp [h', hf]
+  | loop c =>
+    simp only [step] at hs
+    split at hs
+    · -- recv
+      rename_i hl
+      split at hs
+      · simp at hs
+      · rename_i e rest hw
+        simp at hs; subst hs
+        obtain ⟨hf, hh, ha, hi, hst⟩ := hI
+        refine ⟨fun c' => ?_, fun c' => ?_, ha, hi, hst⟩
+        · show onConn c' s.sent = onConn c' (s.got ++ [(c, e)]) ++ upd s.wire c rest c'
+          rw [onConn_snoc]
+          by_cases h : c' = c
+          · subst h; rw [upd_same, hf, hw]; simp
+          · have h' : ¬ c = c' := fun x => h x.symm
+            rw [upd_other _ _ _ _ h]; simp [h', hf]
+        · show protos (onConn c' (s.got ++ [(c, e)])) = handsOn c' s.hand ++ inHand (upd s.loop c (.disp e) c')
+          rw [onConn_snoc]
+          by_cases h : c' = c
+          · subst h; rw [upd_same, protos_append, hh, hl]
+            cases e <;> simp [inHand, protos]
+          · have h' : ¬ c = c' := fun x => h x.symm
+            rw [upd_other _ _ _ _ h]; simp [h', hh]
+    · -- a service message gets its own goroutine
+      rename_i p m hl
+      simp at hs; subst hs
+      obtain ⟨hf, hh, ha, hi, hst⟩ := hI
+      refine ⟨hf, fun c' => ?_, ha, hi, hst⟩
+      show protos (onConn c' s.got) = handsOn c' s.hand ++ inHand (upd s.loop c .recv c')
+      by_cases h : c' = c
+      · subst h; rw [upd_same, hh, hl]; rfl
+      · rw [upd_other _ _ _ _ h]; exact hh c'
+    · rename_i i m hl
+      split at hs
+      · simp at hs
+      · split at hs
+        · simp at hs; subst hs
+          have := inv_handOver s c i m .recv hI (by rw [hl]; rfl) rfl (handOver s c i m).mux (handOver s c i m).live
+          exact this
+        · simp at hs; subst hs
+          obtain ⟨hf, hh, ha, hi, hst⟩ := hI
+          refine ⟨hf, fun c' => ?_, ha, hi, hst⟩
+          show protos (onConn c' s.got) = handsOn c' s.hand ++ inHand (upd s.loop c (.ctor i m) c')
+          by_cases h : c' = c
+          · subst h; rw [upd_same, hh, hl]; rfl
+          · rw [upd_other _ _ _ _ h]; exact hh c'
+    · simp at hs
+  | ctorRet c =>
+    simp only [step] at hs
+    split at hs
+    · rename_i i m hl
+      simp at hs; subst hs
+      exact inv_handOver s c i m .recv hI (by rw [hl]; rfl) rfl false (s.live ++ [i])
+    · simp at hs
+  | reader i =>
+    simp only [step, Option.map_eq_some_iff] at hs
+    obtain ⟨t, ht, rfl⟩ := hs
+    exact inv_inst_step s i .reader t hI ht (reader_accepted _ _ ht)
+  | close i =>
+    simp only [step, Option.map_eq_some_iff] at hs
+    obtain ⟨t, ht, rfl⟩ := hs
+    refine inv_inst_step s i .close t hI ht ?_
+    simp [C05.step] at ht; subst ht; rfl
+  | svcRet k =>
+    simp only [step] at hs
+    split at hs
+    · simp at hs; subst hs
+      obtain ⟨hf, hh, ha, hi, hst⟩ := hI
+      exact ⟨hf, hh, ha, hi, hst⟩
+    · simp at hs
+
+theorem inv_run (as : List Act) (s : St) (h : Inv s) : Inv (run s as) := by
+  induction as generalizing s with
+  | nil => exact h
+  | cons a as ih =>
+    simp only [run]
+    split
+    · exact ih _ (inv_step _ _ _ h ‹_›)
+    · exact ih _ h
+
+/-- **the connection's goroutine never waits for a handler**: whether connection `c`'s goroutine can
+take its next step is decided by the wire, by where the goroutine is and by `transmitMux` — no
+instance's queue, wake-up token or reader state occurs in `loopReady`.  So a connection with input
+proceeds while any number of handlers (and service processors) are blocked for ever; the only thing
+it ever waits for is a protocol constructor running inside `transmitMux`. -/
+theorem c05_conn_loop_never_waits_for_handler (s : St) (c : Nat) :
+    (step s (.loop c)).isSome = loopReady s c := by
+  simp only [step, loopReady]
+  cases hl : s.loop c with
+  | recv => cases hw : s.wire c <;> simp
+  | disp e =>
+    cases e with
+    | svc p m => simp
+    | proto i m =>
+      cases hm : s.mux
+      · by_cases hlive : i ∈ s.live <;> simp [hlive]
+      · simp
+  | ctor i m => simp
+
+/-- the same, as the frame statement it is: two server states that differ only in what their
+instances are doing (queues, tokens, readers, running handlers, running processors) enable
+exactly the same connection steps -/
+theorem c05_conn_loop_frame (s s' : St) (c : Nat) (hw : s.wire c = s'.wire c) (hl : s.loop c = s'.loop c)
+    (hm : s.mux = s'.mux) : (step s (.loop c)).isSome = (step s' (.loop c)).isSome := by
+  rw [c05_conn_loop_never_waits_for_handler, c05_conn_loop_never_waits_for_handler]
+  simp [loopReady, hw, hl, hm]
+
+/-- **service messages never hold a connection**: with a service envelope in hand the goroutine's
+next step is always enabled and brings it back to `Receive` (the processor runs in a goroutine of its
+own, `RoutineDispatcher`) -/
+theorem c05_conn_service_message_returns (s : St) (c p m : Nat) (hl : s.loop c = .disp (.svc p m)) :
+    ∃ s', step s (.loop c) = some s' ∧ s'.loop c = .recv ∧ s'.running = s.running ++ [(p, m)] := by
+  refine ⟨{ s with running := s.running ++ [(p, m)], loop := upd s.loop c .recv }, by simp only [step, hl], ?_, rfl⟩
+  simp [upd]
+
+/-- **acceptance order = hand-over order = connection order**: under every schedule (any number of
+connections, local senders, instances, blocked handlers, constructors, processors)
+(1) the messages handed over from connection `c` are a prefix of the protocol messages written on
+`c`, in writing order (nothing overtakes on a connection, nothing is skipped or duplicated);
+(2) the messages instance `i` accepted are the server's hand-overs to `i`, in that order;
+(3) the handlers `i` started are a prefix of that, and at most one is running. -/
+theorem c05_conn_order (as : List Act) (c i : Nat) :
+    let s := run {} as
+    handsOn c s.hand <+: protos (onConn c s.sent) ∧
+    (s.inst i).accepted = takenBy i s.hand ∧
+    (s.inst i).started <+: takenBy i s.hand ∧
+    (∃ running, (s.inst i).started = (s.inst i).finished ++ running ∧ running.length ≤ 1) := by
+  intro s
+  have hI : Inv s := inv_run as {} inv_init
+  refine ⟨?_, hI.acc i, ?_, ?_⟩
+  · rw [hI.fifo c, protos_append, hI.hand c]
+    exact ⟨inHand (s.loop c) ++ protos (s.wire c), by simp [List.append_assoc]⟩
+  · rw [← hI.acc i, (hI.inst i).start, (hI.inst i).order]; simp [List.append_assoc]
+  · refine ⟨C05.cur (s.inst i), (hI.inst i).start, ?_⟩
+    unfold C05.cur; split <;> simp
+
+/-- every wire is empty and every connection's goroutine is back in `Receive` -/
+def Drained (s : St) : Prop := ∀ c, s.wire c = [] ∧ s.loop c = .recv
+
+/-- **nothing is stuck on the way**: once the connections are drained, every protocol message written
+on connection `c` has been handed over (in writing order), and every instance that was not closed
+and whose reader can do nothing more has handled everything that was handed to it — whatever any
+other instance is doing (in particular: sitting in a handler that never returns). -/
+theorem c05_conn_drained_all_handled (as : List Act) (hd : Drained (run {} as)) (c i : Nat) :
+    let s := run {} as
+    handsOn c s.hand = protos (onConn c s.sent) ∧
+    (C05.step (s.inst i) .reader = none → (s.inst i).closing = false →
+      (s.inst i).finished = takenBy i s.hand ∧ (s.inst i).queue = []) := by
+  intro s
+  have hI : Inv s := inv_run as {} inv_init
+  obtain ⟨hw, hl⟩ := hd c
+  refine ⟨?_, fun hb hc => ?_⟩
+  · rw [hI.fifo c, protos_append, hI.hand c]
+    show handsOn c s.hand = handsOn c s.hand ++ inHand (s.loop c) ++ protos (s.wire c)
+    rw [hw, hl]; simp [inHand, protos]
+  · have := C05.quiescent_of_inv (s.inst i) (hI.inst i) (hI.stop i) hb hc
+    rw [← hI.acc i]; exact this
+
+/-- two server states that are the same except for what the instances of the set `B` are doing (their
+closing flags included in "the same": only `close` changes them) -/
+structure SameBut (B : Nat → Bool) (s s' : St) : Prop where
+  wire : s.wire = s'.wire
+  loop : s.loop = s'.loop
+  mux : s.mux = s'.mux
+  live : s.live = s'.live
+  running : s.running = s'.running
+  sent : s.sent = s'.sent
+  got : s.got = s'.got
+  hand : s.hand = s'.hand
+  inst : ∀ j, B j = false → s.inst j = s'.inst j
+  closing : ∀ j, (s.inst j).closing = (s'.inst j).closing
+
+theorem accept_closing (t t' : C05.St) (a : C05.Act) (h : C05.step t a = some t') (ha : a ≠ .close) :
+    t'.closing = t.closing := by
+  cases a with
+  | accept m => simp only [C05.step] at h; split at h <;> simp at h <;> subst h <;> rfl
+  | close => exact absurd rfl ha
+  | reader =>
+    simp only [C05.step] at h
+    split at h
+    · split at h
+      · simp at h; subst h; rfl
+      · split at h <;> simp at h <;> subst h <;> rfl
+    · simp at h; subst h; rfl
+    · split at h <;> simp at h; subst h; rfl
+    · simp at h
+
+theorem sameBut_handOver (B : Nat → Bool) (s s' : St) (c i m : Nat) (h : SameBut B s s') (lp : LPc) (mx : Bool) (lv : List Nat) :
+    SameBut B { handOver s c i m with mux := mx, live := lv, loop := upd s.loop c lp }
+              { handOver s' c i m with mux := mx, live := lv, loop := upd s'.loop c lp } := by
+  obtain ⟨t, hst, heq, _⟩ := handOver_eq s c i m
+  obtain ⟨t', hst', heq', _⟩ := handOver_eq s' c i m
+  rw [heq, heq']
+  have hcl : (s.inst i).closing = (s'.inst i).closing := h.closing i
+  refine ⟨h.wire, by simp [h.loop], rfl, rfl, h.running, h.sent, h.got, by simp [h.hand, hcl], fun j hj => ?_, fun j => ?_⟩
+  · show upd s.inst i t j = upd s'.inst i t' j
+    by_cases e : j = i
+    · subst e
+      have : s.inst j = s'.inst j := h.inst j hj
+      rw [this] at hst; rw [hst] at hst'; cases hst'
+      simp [upd]
+    · simp [upd, e, h.inst j hj]
+  · show (upd s.inst i t j).closing = (upd s'.inst i t' j).closing
+    by_cases e : j = i
+    · subst e
+      rw [upd_same, upd_same, accept_closing _ _ _ hst (by simp), accept_closing _ _ _ hst' (by simp)]
+      exact hcl
+    · rw [upd_other _ _ _ _ e, upd_other _ _ _ _ e]; exact h.closing j
+
+/-- one step of anything but the reader of an instance in `B`: enabled in both states or in neither, and the
+states stay the same but for `B` -/
+theorem sameBut_step (B : Nat → Bool) (s s' : St) (a : Act) (h : SameBut B s s') (ha : ∀ i, a = .reader i → B i = false) :
+    (step s a = none ∧ step s' a = none) ∨ ∃ t t', step s a = some t ∧ step s' a = some t' ∧ SameBut B t t' := by
+  obtain ⟨w, l, mx, lv, ins, rn, sn, gt, hd⟩ := s
+  obtain ⟨w', l', mx', lv', ins', rn', sn', gt', hd'⟩ := s'
+  obtain ⟨h1, h2, h3, h4, h5, h6, h7, h8, hinst, hcl⟩ := h
+  simp only at h1 h2 h3 h4 h5 h6 h7 h8 hinst hcl
+  subst h1 h2 h3 h4 h5 h6 h7 h8
+  have hsame : SameBut B ⟨w, l, mx, lv, ins, rn, sn, gt, hd⟩ ⟨w, l, mx, lv, ins', rn, sn, gt, hd⟩ :=
+    ⟨rfl, rfl, rfl, rfl, rfl, rfl, rfl, rfl, hinst, hcl⟩
+  cases a with
+  | send c e =>
+    right
+    exact ⟨_, _, rfl, rfl, ⟨rfl, rfl, rfl, rfl, rfl, rfl, rfl, rfl, hinst, hcl⟩⟩
+  | loop c =>
+    simp only [step]
+    cases hl : l c with
+    | recv =>
+      cases hw : w c with
+      | nil => left; simp
+      | cons e rest =>
+        right
+        exact ⟨_, _, rfl, rfl, ⟨rfl, rfl, rfl, rfl, rfl, rfl, rfl, rfl, hinst, hcl⟩⟩
+    | disp e =>
+      cases e with
+      | svc p m =>
+        right
+        exact ⟨_, _, rfl, rfl, ⟨rfl, rfl, rfl, rfl, rfl, rfl, rfl, rfl, hinst, hcl⟩⟩
+      | proto i m =>
+        cases mx
+        · by_cases hlive : i ∈ lv
+          · right
+            simp only [hlive, if_true, Bool.false_eq_true, if_false]
+            refine ⟨_, _, rfl, rfl, ?_⟩
+            exact sameBut_handOver B _ _ c i m hsame .recv false lv
+          · right
+            simp only [hlive, if_false, Bool.false_eq_true]
+            exact ⟨_, _, rfl, rfl, ⟨rfl, rfl, rfl, rfl, rfl, rfl, rfl, rfl, hinst, hcl⟩⟩
+        · left; simp
+    | ctor i m => left; simp
+  | ctorRet c =>
+    simp only [step]
+    cases hl : l c with
+    | recv => left; simp
+    | disp e => left; simp
+    | ctor i m =>
+      right
+      refine ⟨_, _, rfl, rfl, ?_⟩
+      exact sameBut_handOver B _ _ c i m hsame .recv false (lv ++ [i])
+  | reader i =>
+    have hib : B i = false := ha i rfl
+    simp only [step]
+    rw [← hinst i hib]
+    cases hst : C05.step (ins i) .reader with
+    | none => left; simp
+    | some t =>
+      right
+      refine ⟨_, _, rfl, rfl, ?_⟩
+      refine ⟨rfl, rfl, rfl, rfl, rfl, rfl, rfl, rfl, fun j hj => ?_, fun j => ?_⟩
+      · show upd ins i t j = upd ins' i t j
+        by_cases e : j = i
+        · simp [upd, e]
+        · simp [upd, e, hinst j hj]
+      · show (upd ins i t j).closing = (upd ins' i t j).closing
+        by_cases e : j = i
+        · simp [upd, e]
+        · rw [upd_other _ _ _ _ e, upd_other _ _ _ _ e]; exact hcl j
+  | close i =>
+    right
+    simp only [step, C05.step, Option.map_some]
+    refine ⟨_, _, rfl, rfl, ?_⟩
+    refine ⟨rfl, rfl, rfl, rfl, rfl, rfl, rfl, rfl, fun j hj => ?_, fun j => ?_⟩
+    · show upd ins i _ j = upd ins' i _ j
+      by_cases e : j = i
+      · subst e; simp [upd, hinst j hj]
+      · simp [upd, e, hinst j hj]
+    · show (upd ins i _ j).closing = (upd ins' i _ j).closing
+      by_cases e : j = i
+      · subst e; simp [upd]
+      · rw [upd_other _ _ _ _ e, upd_other _ _ _ _ e]; exact hcl j
+  | svcRet k =>
+    simp only [step]
+    by_cases hk : k < rn.length
+    · right
+      simp only [hk, if_true]
+      exact ⟨_, _, rfl, rfl, ⟨rfl, rfl, rfl, rfl, rfl, rfl, rfl, rfl, hinst, hcl⟩⟩
+    · left; simp [hk]
+
+theorem sameBut_reader (B : Nat → Bool) (b : Nat) (hb : B b = true) (s s' t : St) (h : SameBut B s s')
+    (hs : step s (.reader b) = some t) : SameBut B t s' := by
+  simp only [step, Option.map_eq_some_iff] at hs
+  obtain ⟨u, hu, rfl⟩ := hs
+  refine ⟨h.wire, h.loop, h.mux, h.live, h.running, h.sent, h.got, h.hand, fun j hj => ?_, fun j => ?_⟩
+  · show upd s.inst b u j = s'.inst j
+    have : j ≠ b := fun e => by rw [e, hb] at hj; simp at hj
+    rw [upd_other _ _ _ _ this]; exact h.inst j hj
+  · show (upd s.inst b u j).closing = (s'.inst j).closing
+    by_cases e : j = b
+    · subst e; rw [upd_same, accept_closing _ _ _ hu (by simp)]; exact h.closing j
+    · rw [upd_other _ _ _ _ e]; exact h.closing j
+
+/-- the schedule without the reader steps of the instances in `B`: whatever handlers they are in never
+return, and nothing more of their backlogs is handled -/
+def freeze (B : Nat → Bool) : List Act → List Act
+  | [] => []
+  | .reader i :: as => if B i then freeze B as else .reader i :: freeze B as
+  | a :: as => a :: freeze B as
+
+theorem sameBut_run (B : Nat → Bool) (as : List Act) (s s' : St) (h : SameBut B s s') :
+    SameBut B (run s as) (run s' (freeze B as)) := by
+  induction as generalizing s s' with
+  | nil => exact h
+  | cons a as ih =>
+    by_cases hb : ∃ i, a = .reader i ∧ B i = true
+    · obtain ⟨i, rfl, hi⟩ := hb
+      simp only [freeze, hi, if_true, run]
+      cases hs : step s (.reader i) with
+      | none => exact ih s s' h
+      | some t => exact ih t s' (sameBut_reader B i hi s s' t h hs)
+    · have hnb : ∀ i, a = .reader i → B i = false := by
+        intro i e
+        cases hB : B i
+        · rfl
+        · exact absurd ⟨i, e, hB⟩ hb
+      have hfr : freeze B (a :: as) = a :: freeze B as := by
+        cases a with
+        | reader i => simp [freeze, hnb i rfl]
+        | _ => rfl
+      rw [hfr]
+      simp only [run]
+      rcases sameBut_step B s s' a h hnb with ⟨h1, h2⟩ | ⟨t, t', h1, h2, h3⟩
+      · rw [h1, h2]; exact ih s s' h
+      · rw [h1, h2]; exact ih t t' h3
+
+theorem sameBut_refl (B : Nat → Bool) (s : St) : SameBut B s s :=
+  ⟨rfl, rfl, rfl, rfl, rfl, rfl, rfl, rfl, fun _ _ => rfl, fun _ => rfl⟩
+
+/-- **slow or blocked handlers delay only their own instances — any number of them**: take any
+schedule and the same schedule in which the readers of an arbitrary set `B` of instances never move
+again from the start (so whatever handlers they are in never return and nothing more of their
+backlogs is handled; `B` may be all instances of the server but one, thirty-two of them, or one).
+Everything else on the server is identical in the two runs: every wire, every connection's goroutine
+— including the connections that carry the messages of `B` —, `transmitMux`, the order of all
+hand-overs, the running service processors, and the complete state (queue, handlers started and
+finished) of every instance outside `B`. -/
+theorem c05_conn_blocked_handler_delays_only_its_instance (as : List Act) (B : Nat → Bool) :
+    let s := run {} as
+    let s' := run {} (freeze B as)
+    s.wire = s'.wire ∧ s.loop = s'.loop ∧ s.mux = s'.mux ∧ s.hand = s'.hand ∧ s.got = s'.got ∧
+    s.running = s'.running ∧ ∀ j, B j = false → s.inst j = s'.inst j := by
+  have h := sameBut_run B as {} {} (sameBut_refl B {})
+  exact ⟨h.wire, h.loop, h.mux, h.hand, h.got, h.running, h.inst⟩
+
+/-- with everybody else frozen, an instance outside `B` still handles everything handed to it: the
+previous theorem composed with `c05_conn_drained_all_handled` (stated for the frozen schedule itself,
+which is a schedule like any other) -/
+theorem c05_conn_progress_among_blocked (as : List Act) (B : Nat → Bool) (j : Nat)
+    (hd : Drained (run {} (freeze B as))) :
+    let s' := run {} (freeze B as)
+    C05.step (s'.inst j) .reader = none → (s'.inst j).closing = false →
+      (s'.inst j).finished = takenBy j s'.hand ∧ (s'.inst j).queue = [] :=
+  (c05_conn_drained_all_handled (freeze B as) hd 0 j).2
+
+/-- non-vacuity: connection 0 carries, in this order, message 1 for instance 0, a service message, 2
+for instance 0, 7 and 8 for instance 1.  Instance 0 enters the handler of 1 and never leaves it, the
+service processor never returns; instance 1 (same connection) handles 7 and 8, 2 waits in 0's queue. -/
+def demo : List Act :=
+  [.send 0 (.proto 0 1), .send 0 (.svc 5 9), .send 0 (.proto 0 2), .send 0 (.proto 1 7), .send 0 (.proto 1 8),
+   .loop 0, .loop 0, .ctorRet 0, .reader 0, .loop 0, .loop 0, .loop 0, .loop 0, .loop 0, .loop 0, .ctorRet 0,
+   .reader 1, .loop 0, .loop 0, .reader 1, .reader 1, .reader 1]
+
+example : ((run {} demo).inst 1).finished = [7, 8] ∧ ((run {} demo).inst 0).pc = .handling 1 ∧
+    ((run {} demo).inst 0).queue = [2] ∧ (run {} demo).running = [(5, 9)] ∧
+    (run {} demo).hand = [⟨0, 0, 1, true⟩, ⟨0, 0, 2, true⟩, ⟨0, 1, 7, true⟩, ⟨0, 1, 8, true⟩] := by decide
+
+example : (run {} demo).wire 0 = [] ∧ (run {} demo).loop 0 = .recv := by decide
+
+/-- the one thing a connection does wait for: a constructor inside `transmitMux` (connection 1's
+message for the existing instance 0 waits while connection 0 constructs instance 3) -/
+example : (step (run {} [.send 0 (.proto 0 1), .loop 0, .loop 0, .ctorRet 0, .send 0 (.proto 3 1), .loop 0, .loop 0,
+    .send 1 (.proto 0 2), .loop 1]) (.loop 1)).isSome = false := by decide
+
+/-- non-vacuity for many blocked instances: thirty-three instances each enter a handler that never
+returns (their readers are frozen), the thirty-fourth, fed over the same connection, handles its message -/
+def manyBlocked (n : Nat) : List Act :=
+  ((List.range n).flatMap fun i => [.send 0 (.proto i 1), .loop 0, .loop 0, .ctorRet 0, .reader i]) ++
+  [.send 0 (.proto n 7), .loop 0, .loop 0, .ctorRet 0, .reader n, .reader n, .reader n]
+
+set_option maxRecDepth 8000 in
+example : ((run {} (freeze (fun i => decide (i < 33)) (manyBlocked 33))).inst 33).finished = [7] ∧
+    ((run {} (manyBlocked 33)).inst 33).finished = [7] ∧
+    ((run {} (manyBlocked 33)).inst 32).pc = .handling 1 ∧ ((run {} (manyBlocked 33)).inst 0).pc = .handling 1 := by
+  decide
+
+end Conn
 
 /-! ### the code regions the model stands for
 Regenerated from /repo's source on every run (`harness/cmd/astfacts` → `OnetVerif/Shapes.lean`): the
